@@ -1,3 +1,5 @@
 //! One module per property.
 pub mod c01;
+pub mod c02;
+pub mod c03;
 pub mod c04;
